@@ -16,6 +16,9 @@ var (
 	CLITol = Tol{Rel: 1e-9, Abs: 2e-12}
 )
 
+// Wider returns the tolerance with a larger relative part
+func (t Tol) Wider(extra float64) Tol { return Tol{Rel: t.Rel + extra, Abs: t.Abs} }
+
 // Close compares two finite values
 func (t Tol) Close(a, b float64) bool {
 	return math.Abs(a-b) <= t.Abs+t.Rel*math.Max(math.Abs(a), math.Abs(b))
@@ -66,7 +69,7 @@ func Judge(got [][]float64, r *Ref, opt Options, jo JudgeOpt) (v Verdict, err er
 	}
 	isSub := func(x float64) bool {
 		for _, s := range subs {
-			if tol.Close(x, s) {
+			if tol.Wider(r.MaxExtra).Close(x, s) {
 				return true
 			}
 		}
@@ -107,7 +110,7 @@ func Judge(got [][]float64, r *Ref, opt Options, jo JudgeOpt) (v Verdict, err er
 				if e.Diff == 0 && math.Abs(g) > tol.Abs {
 					return v, fmt.Errorf("%s = %v: rows without a counted difference must be at distance 0", where, g)
 				}
-				if !tol.Close(g, e.Value) {
+				if !tol.Wider(e.RelExtra).Close(g, e.Value) {
 					return v, fmt.Errorf("%s = %.15g, the estimator gives %.15g (relative difference %.3g)", where, g, e.Value, math.Abs(g-e.Value)/math.Max(math.Abs(g), math.Abs(e.Value)))
 				}
 				if belowP() {
